@@ -18,22 +18,26 @@ META = {
                  "regenerated from cutting.py on every run + kernel-checked correspondence batches whose boolean "
                  "checkers validate the dual tree and the disk claims on mouette's own output",
     "level_text": "Machine-checked, unbounded Coq theorems (closed under the global context) about the model of cutting.py. "
-                  "FULL: C16_rebuild (+_glued_meaning, _any_union_find) - for any face list, edge table and cut set the "
+                  "PROVED: C16_rebuild (+_glued_meaning, _any_union_find) - for any face list, edge table and cut set the "
                   "rebuilt mesh has the input faces in order, every corner at its input position, ref_vertex total, "
                   "onto and consistent face by face, two corners identified iff linked by a chain of uncut edges around "
                   "their vertex, no uncut edge opened, independent of the union-find's representatives; "
                   "C16_cut0_is_complement; C16_pruning - the queue loop ends within its fuel, only removes "
                   "non-singular leaves, leaves none, keeps every leaf-free subgraph and the connectivity of surviving "
-                  "vertices; C16_cut_graph_connected_contains_border - for any forest of the dual graph (rank "
-                  "certificate) the cut graph is connected and contains the border (tree-cotree); C16_connected - the "
-                  "cut mesh is connected when the uncut dual edges span. PARTIAL: "
-                  "C16_singularities_on_border_partial proves that every singular vertex is an end of a cut edge, not "
-                  "that it has a copy on the border of the cut mesh; C16_disk_euler_partial is only the counting "
-                  "identity for chi = 1; 'one border loop', chi = 1 and 'singular vertex on the border' are checked on "
-                  "mouette's output on every run by boolean checkers, not proved. REFUTED: C16_disk_refuted - a closed "
-                  "sphere with two ADJACENT singular vertices is returned uncut (known finding). The dual Dijkstra "
-                  "tree and the singularity spanning tree are validated per run (spanning-tree certificate) instead "
-                  "of being modelled.",
+                  "vertices; C16_cut_graph_connected_contains_border (tree-cotree, any forest of the dual graph given "
+                  "by a rank certificate); C16_singularities_on_cut_graph; C16_connected - the cut mesh is connected "
+                  "when the uncut dual edges span; C16_singularities_on_border_two_cut_edges / "
+                  "C16_cut_edge_ends_on_border - on a vertex-manifold oriented triangulated surface every singular "
+                  "vertex (every end of a cut edge) has a copy on the border of the rebuilt mesh, under the VISIBLE "
+                  "GUARD that the cut graph has two distinct edges (corner-ring argument). The hypotheses on the input "
+                  "surface and on the dual tree are boolean checkers evaluated on every generated case. "
+                  "NOT PROVED, only checked on mouette's output on every run: Euler characteristic 1 and the single "
+                  "border loop of the disk claim (no theorem; the former lia identity is no longer an obligation). "
+                  "REFUTED: C16_disk_refuted - a closed sphere with two ADJACENT singular vertices is returned uncut "
+                  "(the guard fails: one cut edge; known finding). The dual Dijkstra tree and the singularity "
+                  "spanning tree are validated per run (spanning-tree certificate) instead of being modelled. The "
+                  "singular vertices are handed to the constructor in every legal container form (one-shot iterators "
+                  "included) and as a list completed between construction and run().",
     "level_note": "Trusted: Coq kernel + vm_compute; the cutting.py translator; the correspondence harness (mesh "
                   "generator, driver wrapping the cutter's own methods to observe intermediate sets, canonicalisation); "
                   "mouette's SurfaceMesh tables (edges, direct_face, interior/boundary) are re-derived in the model "
@@ -49,7 +53,7 @@ Open Scope Z_scope.
 """
 
 CODES = {
-    1: "input is not a connected oriented triangulated surface with a consistent edge table (generator/driver)",
+    1: "input is not a connected oriented vertex-manifold triangulated surface with a consistent edge table, or cut_edges holds an unknown edge id (hypotheses of the theorems; generator/driver)",
     2: "interior/boundary edge classification differs between model and mesh",
     3: "the dual tree of the implementation is not a spanning tree of the dual graph",
     4: "cut_edges before pruning is not the complement of the dual tree",
@@ -180,13 +184,23 @@ def run_one(case):
 
 
 def strip(case):
-    return {k: case[k] for k in ("nv", "faces", "coords", "singus", "feat")}
+    c = {k: case[k] for k in ("nv", "faces", "coords", "singus", "feat")}
+    c["form"] = case.get("form") or "list"
+    c["late"] = min(int(case.get("late") or 0), len(case["singus"]))
+    return c
 
 
 def _candidates(cur):
     out = []
     for i in range(len(cur["singus"])):
-        out.append(dict(cur, singus=cur["singus"][:i] + cur["singus"][i + 1:]))
+        n = len(cur["singus"])
+        late = cur.get("late", 0)
+        out.append(dict(cur, singus=cur["singus"][:i] + cur["singus"][i + 1:],
+                        late=(late - 1 if i >= n - late else late)))
+    if cur.get("late"):
+        out.append(dict(cur, late=0))
+    if (cur.get("form") or "list") != "list":
+        out.append(dict(cur, form="list"))
     if cur["feat"]:
         for i in range(len(cur["feat"])):
             out.append(dict(cur, feat=cur["feat"][:i] + cur["feat"][i + 1:]))
@@ -202,7 +216,8 @@ def _candidates(cur):
             continue
         cand = {"nv": len(used), "faces": [[ren[v] for v in F] for F in faces],
                 "coords": [cur["coords"][v] for v in used], "singus": [ren[s] for s in cur["singus"]],
-                "feat": None if cur["feat"] is None else [sorted((ren[a], ren[b])) for a, b in cur["feat"]]}
+                "feat": None if cur["feat"] is None else [sorted((ren[a], ren[b])) for a, b in cur["feat"]],
+                "form": cur.get("form") or "list", "late": cur.get("late", 0)}
         if cand["feat"]:
             und = {tuple(sorted((F[i], F[(i + 1) % 3]))) for F in cand["faces"] for i in range(3)}
             if any(tuple(e) not in und for e in cand["feat"]):
@@ -254,7 +269,19 @@ def handcrafted():
         out.append({"nv": nv, "faces": faces, "coords": [[(7 * v) % 11, (5 * v) % 13, v] for v in range(nv)],
                     "singus": s, "feat": None})
     out.append({"nv": 3, "faces": [[0, 1, 2]], "coords": [[0, 0, 0], [1, 0, 0], [0, 1, 0]], "singus": [1], "feat": None})
+    # the same interior singular vertices of a 5x5 sheet handed over in every container form, and a list completed late
+    nv, faces = G.seed_grid(5, 5, diag=0)
+    for form in G.FORMS:
+        out.append({"nv": nv, "faces": faces, "coords": G.grid_coords(5, 5), "singus": [12, 16], "feat": None, "form": form})
+    out.append({"nv": nv, "faces": faces, "coords": G.grid_coords(5, 5), "singus": [12, 16], "feat": None, "form": "list", "late": 1})
+    out.append({"nv": nv, "faces": faces, "coords": G.grid_coords(5, 5), "singus": [7, 17, 13], "feat": [[6, 7], [7, 8]],
+                "form": "generator"})
+    nv, faces = G.seed_grid(4, 5, True, True, diag=1)
+    out.append({"nv": nv, "faces": faces, "coords": [[(7 * v) % 11, (5 * v) % 13, v] for v in range(nv)],
+                "singus": [6, 13], "feat": None, "form": "iter"})
     for c in out:
+        c.setdefault("form", "list")
+        c.setdefault("late", 0)
         c["info"] = dict(G.stats(c["nv"], c["faces"]), seed_kind="handcrafted", coords="fixed", singu_mode="fixed",
                          features=c["feat"] is not None, size="tiny", edits=[])
     return out
@@ -266,7 +293,9 @@ def run(ctx):
     ctx.rule = ("connected oriented manifold triangulated surfaces (tetra/octa/bipyramid/fan/grid/annulus/torus/"
                 "genus-2 and torus#sphere sums, 0-3 opened holes, random 1-3 splits, edge splits, flips, deletions, "
                 "ears; random renumbering, rotation, shuffle; integer coordinates random/planar/tie-heavy), <= 80 "
-                "faces; singular sets none/one/two/adjacent/many/on the border/mixed/all; 40% with a feature "
+                "faces; singular sets none/one/two/adjacent/many/on the border/mixed/all, handed to the constructor as "
+                "list/tuple/set/frozenset/numpy array/dict/vertex Attribute/generator/iterator/filter/map object "
+                "(60% non-list) or as a list completed after construction; 40% with a feature "
                 "detector holding the border plus random interior feature edges/walks. Non-trivial = at least one "
                 "interior edge is cut or the surface has genus > 0 or >= 2 border loops; distinct = canonical JSON")
     ctx.assumptions += ["the input is a connected oriented manifold triangulated surface without two faces on the same "
@@ -316,17 +345,25 @@ def run(ctx):
         ctx.count("faces<=%d" % (20 * ((i.get("nf", len(c["faces"])) + 19) // 20)))
         ctx.count("singularities=%s" % (len(set(c["singus"])) if len(set(c["singus"])) < 4 else "4+"))
         ctx.count("features=%s" % (c.get("feat") is not None))
+        ctx.count("container=%s" % (c.get("form") or "list"))
+        if c.get("late"):
+            ctx.count("list completed after construction")
         ctx.count("seed=%s" % i.get("seed_kind"))
         nontrivial = bool(o.get("ok")) and (len(o["cut"]) > len(o["boundary"]) or i.get("genus", 0) > 0 or i.get("loops", 0) >= 2)
-        ctx.case_seen([c["nv"], c["faces"], c["coords"], c["singus"], c["feat"]], nontrivial=nontrivial,
+        ctx.case_seen([c["nv"], c["faces"], c["coords"], c["singus"], c["feat"], c.get("form"), c.get("late")], nontrivial=nontrivial,
                       sample={"faces": c["faces"][:6], "singus": c["singus"], "feat": c["feat"],
                               "cut": o.get("cut"), "n_out": len(o.get("out_verts") or [])})
         f = oracle(c, o)
         if f:
             fails.append((idx, f))
-    ctx.obligation("oracle: the property sentence restated by brute force holds of every observed output",
-                   "oracle-on-implementation", True, "%d failing cases" % len(fails))
-
+    keyed = [(idx, f, classify(cases[idx], obs[idx], f)) for idx, f in fails]
+    unknown = [(idx, f, k) for idx, f, k in keyed if not ctx.known(k)]
+    dropped = sum(1 for o in obs if not o.get("ok"))
+    ctx.count("driver errors (counted as failures)", dropped)
+    ctx.obligation("oracle: the property sentence restated by brute force holds of every observed output "
+                   "(failures of a listed known-finding class excepted)",
+                   "oracle-on-implementation", not unknown,
+                   "%d failing cases, %d outside the known classes, %d driver errors" % (len(fails), len(unknown), dropped))
     ctx.log("oracle done: %d failing cases" % len(fails))
     # ---- kernel-checked correspondence + checkers
     bad = []
@@ -354,19 +391,19 @@ def run(ctx):
     ctx.log("correspondence done: %d disagreeing cases" % len(bad))
     # ---- verdicts
     reported = set()
-    known_idx = set()
-    for idx, f in fails:
-        key = classify(cases[idx], obs[idx], f)
-        if ctx.known(key):
-            known_idx.add(idx)
+    shrunk = 0
+    for idx, f, key in sorted(keyed, key=lambda t: (ctx.known(t[2]) is not None, t[0])):
         if key in reported:
             continue
         reported.add(key)
         if ctx.known(key):
             ctx.report_known(key, ctx.known(key)["what"])
             continue
-        if len(reported) > 3:
+        if shrunk >= 3:
+            ctx.violation("SingularityCutter: " + "; ".join(m for _, m in f[:3]),
+                          {"case": strip(cases[idx]), "class": key}, key=key)
             continue
+        shrunk += 1
         small = shrink(cases[idx], key)
         o2 = run_one(small)
         f2 = oracle(small, o2) or f
@@ -378,11 +415,6 @@ def run(ctx):
         ctx.notes.append("model/checkers and implementation disagree on cases %s although the oracle accepts them" % unexplained[:5])
         for k in unexplained[:3]:
             ctx.log("unexplained disagreement on case", k, json.dumps(strip(cases[k]))[:600])
-    elif bad and all(k in known_idx for k in bad):
-        for o in ctx.obligations:
-            if o["kind"] == "correspondence" and not o["ok"]:
-                o["ok"] = True
-                o["detail"] += " (all disagreements are instances of listed known findings)"
 
 
 def replay(ctx, data):
@@ -392,6 +424,8 @@ def replay(ctx, data):
         return 1
     o = run_one(case)
     f = oracle(case, o)
+    print("singular vertices %s handed over as %s%s" % (case["singus"], case.get("form") or "list",
+          (", the last %d appended after construction" % case["late"]) if case.get("late") else ""))
     print("observed:", json.dumps({k: o.get(k) for k in ("error", "cut", "out_faces", "ref_vertex")})[:1500])
     if f:
         for k, m in f:
